@@ -828,4 +828,51 @@ theorem tieFree_mono {m m' : Nat → Rat} (sel : Sel) (cfg : Cfg) (lm : LM σ) (
       exact ⟨sepB_mono (hm t (Nat.le_refl _) (by omega)) h.1,
         ih (t + 1) _ (fun t' h1 h2 => hm t' (by omega) (by omega)) h.2⟩
 
+/-! ## Part 8: the one-pass evaluation of `sepB` the driver uses -/
+
+/-- Looking every position up (`getD`) or walking the list with its positions (`zipIdx`) is the same test. -/
+theorem all_range_getD {α} (c : List α) (d : α) (f : Nat → α → Bool) :
+    (List.range c.length).all (fun j => f j (c.getD j d)) = c.zipIdx.all (fun p => f p.2 p.1) := by
+  rw [Bool.eq_iff_iff, List.all_eq_true, List.all_eq_true]
+  constructor
+  · intro h p hp
+    obtain ⟨x, j⟩ := p
+    have hx : c[j]? = some x := by simpa using (List.mem_zipIdx_iff_getElem? (l := c)).mp hp
+    have hj : j < c.length := by
+      rcases Nat.lt_or_ge j c.length with hj | hj
+      · exact hj
+      · rw [List.getElem?_eq_none hj] at hx; cases hx
+    have := h j (List.mem_range.mpr hj)
+    simpa [List.getD, hx] using this
+  · intro h j hj
+    have hj := List.mem_range.mp hj
+    have hm : (c[j], j) ∈ c.zipIdx := (List.mem_zipIdx_iff_getElem? (l := c)).mpr (by simp [hj])
+    have := h (c[j], j) hm
+    simpa [List.getD, List.getElem?_eq_getElem hj] using this
+
+/-- Outside `[v - m, v + m]` = more than `m` below or more than `m` above `v`. -/
+theorem clear_eq_apart (m v : Rat) (x : Score) :
+    Score.clear (v - m) (v + m) x = (Score.apart m (some v) x || Score.apart m x (some v)) := by
+  cases x with
+  | none => simp [Score.clear, Score.apart]
+  | some y =>
+    simp only [Score.clear, Score.apart]
+    have h : (y < v - m) ↔ (y + m < v) := by constructor <;> intro h <;> grind
+    simp [h]
+
+/-- The driver's one-pass `sepFast` is `sepB`. -/
+theorem sepFast_eq (m : Rat) (c : List Score) (inds : List Nat) : sepFast m c inds = sepB m c inds := by
+  unfold sepFast sepB
+  congr 1
+  funext i
+  rw [all_range_getD c none
+    (fun j x => j == i || Score.apart m (c.getD i none) x || Score.apart m x (c.getD i none))]
+  cases hc : c.getD i none with
+  | none => simp
+  | some v =>
+    simp only [Option.isNone_some, Bool.false_or]
+    congr 1
+    funext p
+    rw [clear_eq_apart, Bool.or_assoc]
+
 end PdtVerif.Beam
